@@ -6,6 +6,7 @@ exception Missing of string
 let split_on c s = if s = "-" || s = "" then [] else String.split_on_char c s
 let field fs k = try List.assoc k fs with Not_found -> "-"
 let sel_cache : (n list, validator option) Hashtbl.t = Hashtbl.create 64
+let re_cache : (string, re option) Hashtbl.t = Hashtbl.create 16
 let () = main_loop (fun toks ->
   let fs = List.filter_map (fun t ->
     match String.index_opt t '=' with
@@ -29,13 +30,48 @@ let () = main_loop (fun toks ->
     let ki = int_of_n k in
     let key = (ki, hex_of_bytes v) in
     let spec = if ki < Array.length specs then specs.(ki) else "" in
-    let sre sc = (try Hashtbl.find s_tbl (ki, hex_of_bytes sc)
-                  with Not_found -> raise (Missing ("S " ^ string_of_int ki ^ ":" ^ hex_of_bytes sc))) in
+    (* the scheme expression of a URI validator: full match of the scheme range, as booster::regex_match does it; a pattern of the
+       family of DefsR.v is decided by the model and the answer of the real regular expression (S= table) is cross-checked *)
+    let sre sc =
+      let tbl = Hashtbl.find_opt s_tbl (ki, hex_of_bytes sc) in
+      let pat = if spec = "uri" then "(http|https|ftp|mailto|news|nntp)"
+                else if starts_with "uris:" spec then String.sub spec 5 (String.length spec - 5)
+                else if starts_with "abs:" spec then String.sub spec 4 (String.length spec - 4) else "" in
+      let pr = (match Hashtbl.find_opt re_cache ("S:" ^ pat) with
+                | Some r -> r
+                | None ->
+                    let r = if pat = "" then None else parse_pattern (List.init (String.length pat) (fun i -> n_of_int (Char.code pat.[i]))) in
+                    Hashtbl.replace re_cache ("S:" ^ pat) r; r) in
+      match pr, tbl with
+      | Some r, Some b -> let m = full_match r sc in
+          if m <> b then failwith ("SCHEME-REGEX-MODEL-DIFFERS validator " ^ string_of_int ki ^ " scheme " ^ hex_of_bytes sc) else m
+      | Some r, None -> full_match r sc
+      | None, Some b -> b
+      | None, None -> raise (Missing ("S " ^ string_of_int ki ^ ":" ^ hex_of_bytes sc)) in
     let ukind = if spec = "uri" || starts_with "uris:" spec then Some UBoth
                 else if starts_with "abs:" spec then Some UFull
                 else if spec = "rel" then Some URelative else None in
     match ukind with
-    | None -> (try Hashtbl.find funs_tbl key with Not_found -> raise (Missing ("F " ^ string_of_int ki ^ ":" ^ snd key)))
+    | None ->
+        (* regex validators: a pattern of the family of coq/C04/DefsR.v is decided by the model (C20's derivative matcher on the
+           parsed pattern: the WHOLE value must be in the language); the answer of the real regex_functor is only cross-checked.
+           Patterns outside the family: answered by the table *)
+        let table () = (try Hashtbl.find funs_tbl key with Not_found -> raise (Missing ("F " ^ string_of_int ki ^ ":" ^ snd key))) in
+        if starts_with "re:" spec then begin
+          let pr = (match Hashtbl.find_opt re_cache spec with
+                    | Some r -> r
+                    | None ->
+                        let pat = String.sub spec 3 (String.length spec - 3) in
+                        let r = parse_pattern (List.init (String.length pat) (fun i -> n_of_int (Char.code pat.[i]))) in
+                        Hashtbl.replace re_cache spec r; r) in
+          match pr with
+          | Some r ->
+              let m = full_match r v in
+              (match Hashtbl.find_opt funs_tbl key with
+               | Some b when b <> m -> failwith ("REGEX-MODEL-DIFFERS validator " ^ string_of_int ki ^ " value " ^ snd key)
+               | _ -> m)
+          | None -> table ()
+        end else table ()
     | Some uk ->
         let m = uri_validate uk (if uk = URelative then (fun _ -> false) else sre) v in
         (match Hashtbl.find_opt funs_tbl key with
